@@ -225,11 +225,12 @@ SRC_TIE_TEXT = {
     'FileConformance': 'the reader/writer ties and the C08 theorems composed: the translated _load reads EVERY standard-conformant encoding (relation EncFile: running status, padded quantities, longer headers) to exactly the encoded file, clip on or off; what the translated save writes is a member of that relation',
     'TracksMerge': 'the tracks tie and the C12 theorems composed: the translated merge_tracks never raises and its result has exactly the events of the inputs at their absolute ticks, sorted, stable, one final end_of_track, duration of the longest input',
     'Charset': 'the context manager meta_charset of meta.py (generator with try/yield/finally rebinding a module global), translated: for EVERY block - returning, raising, rebinding the global itself, nesting further scopes - the charset in force afterwards is the one from before, the block sees the temporary one; equals the model\'s withCharset',
-    'Syx': 'read_syx_file of syx.py on the contents of the file (binary, or hex text through re.sub and bytearray.fromhex, then the Parser and the sysex filter) = the model\'s readSyx for every file of bytes',
+    'Syx': 'read_syx_file of syx.py on the contents of the file (binary, or hex text through re.sub and bytearray.fromhex, then the Parser and the sysex filter) = the model\'s readSyx for every file of bytes; write_syx_file (both formats, the written file as its result) = writeSyxBin / writeSyxText; the C19 round trip restated about the two translated functions',
     'Sockets': 'parse_address of sockets.py (split on the colon, exactly two parts, int() as a parameter, the port range with 2**16) = the model\'s parseAddress on every text; with C18_address: every formatted host:port pair is read back',
-    'Timing': 'MidiFile.__iter__ (the tempo bookkeeping of iteration / length / play), with tick2second a parameter instantiated by the exact product ticks*tempo: the times attached to the messages are the model\'s, the tempo switches after the set_tempo message is handed out, from 500000; with C13_integral: cumulative times are the tempo-map integral',
+    'Timing': 'MidiFile.__iter__ and the property MidiFile.length (type-2 refusal, then the sum over the file\'s own translated iteration) (the tempo bookkeeping of iteration / length / play), with tick2second a parameter instantiated by the exact product ticks*tempo: the times attached to the messages are the model\'s, the tempo switches after the set_tempo message is handed out, from 500000; with C13_integral: cumulative times are the tempo-map integral',
     'Parser': 'the Parser class of parser.py (feed, feed_byte, _decode over the tokenizer\'s generator, get_message, pending) = the model\'s parser operations for every state and input',
     'Msg': 'decode_message and encode_message whole (dicts as insertion-ordered association lists, SPEC_BY_STATUS / SPEC_BY_TYPE / CHANNEL_MESSAGES and both dispatch tables from the working tree): equal to the model\'s decode / encode on every int list / every message, with the round trip at source level',
+    'MergedTrack': 'the property MidiFile.merged_track of midifiles.py (TypeError for a type-2 file, otherwise merge_tracks of the tracks held at the moment of the access: a pure function of the two fields it reads) = the model\'s observation of the merged track',
     'Tok': 'the Tokenizer state machine of tokenizer.py (_feed_status_byte, _feed_data_byte, feed_byte, feed)',
     'Meta': 'check_int and the encode/decode/check methods of the numeric meta specs of meta.py',
     'Vlq': 'encode_variable_int and decode_variable_int (meta.py)',
@@ -241,7 +242,7 @@ SRC_TIE_TEXT = {
 SRC_TIE = {
     'C01': ['Codec', 'Msg'], 'C02': ['Codec', 'Msg', 'MsgDecision'], 'C03': ['Codec'],
     'C04': ['Tok', 'Parser', 'ParserSession'], 'C05': ['Tok', 'Parser', 'ParserSession'], 'C06': ['Tok', 'Parser', 'ParserSession'], 'C18': ['Tok', 'Sockets'], 'C19': ['Tok', 'Parser', 'Syx'],
-    'C07': ['Vlq', 'VlqRead', 'Tracks', 'Writer', 'Reader', 'FileRoundTrip'], 'C08': ['Vlq', 'VlqRead', 'Writer', 'Reader', 'FileConformance'], 'C09': ['Meta', 'Vlq', 'MetaFrame', 'MetaRoundTrip'], 'C10': ['Ports', 'PortsIter'], 'C11': ['Ports', 'PortsIter', 'PortsLifecycle'], 'C12': ['Tracks', 'TracksMerge'], 'C13': ['Timing'], 'C17': ['Charset'], 'C16': ['Tracks'],
+    'C07': ['Vlq', 'VlqRead', 'Tracks', 'Writer', 'Reader', 'FileRoundTrip'], 'C08': ['Vlq', 'VlqRead', 'Writer', 'Reader', 'FileConformance'], 'C09': ['Meta', 'Vlq', 'MetaFrame', 'MetaRoundTrip'], 'C10': ['Ports', 'PortsIter'], 'C11': ['Ports', 'PortsIter', 'PortsLifecycle'], 'C12': ['Tracks', 'TracksMerge'], 'C13': ['Timing'], 'C17': ['Charset'], 'C16': ['Tracks', 'MergedTrack'],
 }
 
 
